@@ -938,12 +938,30 @@ def _userland_session(payload):
         ("f_var_f", (Funsor, [Funsor])),
         ("t_var_n", (funsor.Tensor, [Number])),
         ("var_is", ([int, str],)),
+        # patterns taken from the rule's own annotations (registered without explicit types); the rule
+        # has a leading un-annotated parameter and a return annotation, as stateful interpretations' rules do
+        ("ann_bytes", (bytes,)),
+        ("ann_tensor_str", (funsor.Tensor, str)),
     ]
+    annotated = {"ann_bytes": {"a": bytes, "return": str}, "ann_tensor_str": {"a": funsor.Tensor, "b": str, "return": Funsor}}
 
     def make(subset=None):
         reg = KeyedRegistry(default=lambda *a: None)
         fns = {}
         for name, types in (patterns if subset is None else subset):
+            if name in annotated:
+                if len(types) == 1:
+                    def fn(state, a, _name=name):
+                        return _name
+                else:
+                    def fn(state, a, b, _name=name):
+                        return _name
+
+                fn.__annotations__ = dict(annotated[name])
+                fn.__name__ = fn.__qualname__ = "user_rule_" + name
+                reg.register(UKey)(fn)  # no explicit types: the pattern comes from the annotations
+                continue
+
             def fn(*args, _name=name):
                 return _name
 
@@ -1027,9 +1045,9 @@ def _userland_session(payload):
     for _ in range(payload.get("containers", 40)):
         elems = [r.choice(atoms) for _ in range(r.randint(1, 4))]
         singles.append(frozenset(elems) if r.random() < 0.7 else tuple(elems))
-    singles += [Box(), Box[int](), Box[int, str](), Box[int, bytes](), Box[str, str]()]
+    singles += [Box(), Box[int](), Box[int, str](), Box[int, bytes](), Box[str, str](), b"raw"]
     argsets = [(a,) for a in singles]
-    argsets += [(t, Number(1)), (t, Number(1), t), (t, t, t), (x, Number(1), Number(2.5)), (t, Number(1), x), (Number(1), t, Number(2)), (1, "a", 2), (1, 2, 3), (1, 2.5)]
+    argsets += [(t, "s"), (t, Number(1)), (t, Number(1), t), (t, t, t), (x, Number(1), Number(2.5)), (t, Number(1), x), (Number(1), t, Number(2)), (1, "a", 2), (1, 2, 3), (1, 2.5)]
     for a in (t, Number(2.0), x):
         for b in (frozenset(), frozenset({i2}), frozenset({x}), frozenset({"q"}), (), (1, 2), ("a",)):
             argsets.append((a, b))
